@@ -58,6 +58,7 @@ func main() {
 	unwind := flag.Int("unwind", 8, "default unwinding bound for loops with symbolic conditions")
 	trace := flag.Bool("trace", false, "trace instructions")
 	dumpDir := flag.String("dump-smt", "", "directory to dump failing/unknown queries")
+	tier := flag.String("tier", "quick", "quick|thorough (value of the verifTier intrinsic)")
 	second := flag.String("second-solver", "", "re-check every obligation with this solver (z3-new|cvc5) and diff")
 	flag.Parse()
 
@@ -117,7 +118,7 @@ func main() {
 	pool := newPool()
 	ro := &RunOutput{Repo: *repo, Tags: *tags, LoadMs: loadMs}
 	for _, name := range names {
-		hr := runHarness(prog, pkgs[0].Fset, mainPkg, name, pool, *unwind, *trace)
+		hr := runHarness(prog, pkgs[0].Fset, mainPkg, name, pool, *unwind, *trace, *tier)
 		hr.Tags = *tags
 		discharge(pool, hr, *workers, *timeout, *dumpDir, *second)
 		ro.Harnesses = append(ro.Harnesses, hr)
@@ -155,7 +156,7 @@ func newEngine(prog *ssa.Program, fset interface{}, pool *SolverPool) *Engine {
 	return nil
 }
 
-func runHarness(prog *ssa.Program, fset0 interface{}, pkg *ssa.Package, name string, pool *SolverPool, unwind int, trace bool) *HarnessResult {
+func runHarness(prog *ssa.Program, fset0 interface{}, pkg *ssa.Package, name string, pool *SolverPool, unwind int, trace bool, tier string) *HarnessResult {
 	hr := &HarnessResult{Name: name, Pkg: pkg.Pkg.Path(), Loops: map[string]string{}, Bounds: map[string]string{}}
 	start := time.Now()
 	e := &Engine{
@@ -165,6 +166,7 @@ func runHarness(prog *ssa.Program, fset0 interface{}, pkg *ssa.Package, name str
 		globals: map[*ssa.Global]int{}, harness: name, unwind: unwind, maxVisits: 20000,
 		caseVals: map[string]int{}, caseRanges: map[string][2]int{}, bounds: map[string]string{},
 		trace: trace, initHeap: map[int]Value{}, assumptions: map[string]bool{},
+		redirects: map[string]*ssa.Function{}, mainPkg: pkg, tier: tier,
 	}
 	e.installStubs()
 	fn := pkg.Func(name)
@@ -252,6 +254,7 @@ func runHarness(prog *ssa.Program, fset0 interface{}, pkg *ssa.Package, name str
 	hr.Paths = e.paths
 	hr.Merges = e.merges
 	hr.ExecMs = time.Since(start).Milliseconds()
+	fmt.Fprintf(os.Stderr, "  [%s] paths=%d merges=%d feasibility-queries=%d (%d ms) terms=%d\n", name, e.paths, e.merges, e.feasCalls, e.feasMs, TF.next)
 	return hr
 }
 
